@@ -3,11 +3,14 @@ import Rustemo.Model.AstEval
 # Driver for the default-builder model (command word `ast`)
 
     ast eval <grammar> # <tree>          → ok <value> | novalue | panic <site hex> | stack | illtyped | notypes | bad-request
-    ast evalv <0|1> <grammar> # <tree>   → as `eval` for the named variant (`1` = repaired `@vec` push; diagnostics)
     ast skel <grammar>                   → generated type / fn items `T:..;S:..;E:..;F:..` (file order) | notypes
     ast arms <grammar>                   → calls of the shift / reduce arms `f(context,p0,None);…` | notypes
     ast class <grammar>                  → types= ascii= distinct= declared= sized= arms= vecalt= veclabel= pk= wf= rightvec= variant=
-                                           (each `1` = that part of `Skel.wellFormed` holds; rightvec=1: F7 class)
+                                           (each `1` = that part of `Skel.wellFormed` holds; rightvec=1: a Vec rule
+                                           has its vector on the right)
+    ast evalv|skelv|armsv|classv <0|1> … → the same for the named variant: `1` = `Fixes.repo` (/repo as it is, what the
+                                           plain commands use), `0` = `Fixes.asWas` (before the repairs; diagnostics:
+                                           tells which variant the implementation agrees with)
 
 * grammar: records separated by `|`:
     `cfg <loc 0|1> <rn 0|1> <start symbol>`; `t <name> <content> <reach>` (terminals without STOP);
@@ -158,50 +161,61 @@ def allNames (g : AGrammar) : List String :=
   g.terms.map (·.name) ++ g.nts.map (·.name) ++ g.prods.flatMap (fun p =>
     (match p.kind with | some k => [k] | none => []) ++ p.rhs.flatMap (fun r => match r.label with | some l => [l] | none => []))
 
-def classLine (g : AGrammar) : String :=
+def fxOf (v : String) : Fixes := if v == "0" then Fixes.asWas else Fixes.repo
+
+def classLine (fx : Fixes) (g : AGrammar) : String :=
   let ascii := (allNames g).all asciiIdent
-  match symbolTypes g with
+  match symbolTypes fx g with
   | none => s!"types=0 ascii={n01 ascii}"
   | some ts =>
-    let s := skeleton g ts
-    s!"types=1 ascii={n01 ascii} distinct={n01 s.namesDistinct} declared={n01 s.refsDeclared} sized={n01 s.sized} arms={n01 s.armsTyped} vecalt={n01 s.vecAltsOk} veclabel={n01 s.vecLabelsOk} pk={n01 (nodup s.prodKinds)} wf={n01 s.wellFormed} rightvec={n01 (hasRightVec ts)} variant={if repoFixed then "fixed" else "asIs"}"
+    let s := skeleton fx g ts
+    s!"types=1 ascii={n01 ascii} distinct={n01 s.namesDistinct} declared={n01 s.refsDeclared} sized={n01 s.sized} arms={n01 s.armsTyped} vecalt={n01 s.vecAltsOk} veclabel={n01 s.vecLabelsOk} pk={n01 (nodup s.prodKinds)} wf={n01 s.wellFormed} rightvec={n01 (hasRightVec ts)} variant={if fx == Fixes.repo then "repo" else "asWas"}"
 
 def splitHash (s : String) : Option (String × String) :=
   match s.splitOn " # " with
   | [a, b] => some (a, b)
   | _ => none
 
-def evalReq (fixed : Bool) (rest : String) : String :=
+def evalReq (fx : Fixes) (rest : String) : String :=
   match splitHash rest with
   | none => "bad-request"
   | some (gs, tr) =>
     match parseGrammar gs, parseTreeS ((tr.splitOn " ").foldl (· ++ ·) "") with
     | some g, some t =>
-      match symbolTypes g with
+      match symbolTypes fx g with
       | none => "notypes"
-      | some ts => renderEval (eval (shapesOf g ts fixed) t)
+      | some ts => renderEval (eval (shapesFor fx g ts) t)
     | _, _ => "bad-request"
+
+def skelReq (fx : Fixes) (rest : String) : String :=
+  match parseGrammar rest with
+  | some g => match symbolTypes fx g with
+    | some ts => semiJoin ((skeleton fx g ts).items.map Item.render)
+    | none => "notypes"
+  | none => "bad-request"
+
+def armsReq (fx : Fixes) (rest : String) : String :=
+  match parseGrammar rest with
+  | some g => match symbolTypes fx g with
+    | some ts => semiJoin ((skeleton fx g ts).calls.map Call.render)
+    | none => "notypes"
+  | none => "bad-request"
+
+def classReq (fx : Fixes) (rest : String) : String :=
+  match parseGrammar rest with
+  | some g => classLine fx g
+  | none => "bad-request"
 
 def handleAst (args : String) : String :=
   match args.splitOn " " with
-  | "eval" :: rest => evalReq repoFixed (" ".intercalate rest)
-  | "evalv" :: v :: rest => evalReq (v == "1") (" ".intercalate rest)
-  | "skel" :: rest =>
-    match parseGrammar (" ".intercalate rest) with
-    | some g => match symbolTypes g with
-      | some ts => semiJoin ((skeleton g ts).items.map Item.render)
-      | none => "notypes"
-    | none => "bad-request"
-  | "arms" :: rest =>
-    match parseGrammar (" ".intercalate rest) with
-    | some g => match symbolTypes g with
-      | some ts => semiJoin ((skeleton g ts).calls.map Call.render)
-      | none => "notypes"
-    | none => "bad-request"
-  | "class" :: rest =>
-    match parseGrammar (" ".intercalate rest) with
-    | some g => classLine g
-    | none => "bad-request"
+  | "eval" :: rest => evalReq Fixes.repo (" ".intercalate rest)
+  | "skel" :: rest => skelReq Fixes.repo (" ".intercalate rest)
+  | "arms" :: rest => armsReq Fixes.repo (" ".intercalate rest)
+  | "class" :: rest => classReq Fixes.repo (" ".intercalate rest)
+  | "evalv" :: v :: rest => evalReq (fxOf v) (" ".intercalate rest)
+  | "skelv" :: v :: rest => skelReq (fxOf v) (" ".intercalate rest)
+  | "armsv" :: v :: rest => armsReq (fxOf v) (" ".intercalate rest)
+  | "classv" :: v :: rest => classReq (fxOf v) (" ".intercalate rest)
   | _ => "bad-request"
 
 end Rustemo.Ast
